@@ -115,14 +115,17 @@ static void the_call(void)
 #elif C08B_OP == B_SEARCH
 	{
 		struct evbuffer_ptr p, q;
+		/* needle per scenario: present in the first chain / spanning the chain boundary / absent / first byte only */
+		if (g_n == 0) { needle[0] = 'c'; needle[1] = 'd'; } else if (g_n == 3) { needle[0] = 'e'; needle[1] = 'a'; }
+		else if (g_n == 16) { needle[0] = 'z'; needle[1] = 'q'; } else { needle[0] = 'a'; needle[1] = 'q'; }
 		CALL(p = evbuffer_search(A, needle, 2, NULL));
 		CALL(r = evbuffer_ptr_set(A, &q, 20, EVBUFFER_PTR_SET));
 		CALL(p = evbuffer_search_range(A, needle, 2, NULL, &q));
 	}
 #elif C08B_OP == B_SEARCH_EOL
-	{ struct evbuffer_ptr p; size_t l; CALL(p = evbuffer_search_eol(A, NULL, &l, g_n == 0 ? EVBUFFER_EOL_ANY : g_n == 3 ? EVBUFFER_EOL_CRLF : g_n == 16 ? EVBUFFER_EOL_CRLF_STRICT : EVBUFFER_EOL_NUL)); (void)p; }
+	{ struct evbuffer_ptr p; size_t l; CALL(p = evbuffer_search_eol(A, NULL, &l, g_n == 0 ? EVBUFFER_EOL_LF : g_n == 3 ? EVBUFFER_EOL_CRLF : g_n == 16 ? EVBUFFER_EOL_CRLF_STRICT : EVBUFFER_EOL_NUL)); (void)p; }
 #elif C08B_OP == B_READLN
-	{ char *l; size_t n; CALL(l = evbuffer_readln(A, &n, g_n == 0 ? EVBUFFER_EOL_ANY : g_n == 3 ? EVBUFFER_EOL_LF : EVBUFFER_EOL_CRLF)); if (l) mm_free(l); }
+	{ char *l; size_t n; CALL(l = evbuffer_readln(A, &n, g_n == 0 ? EVBUFFER_EOL_NUL : g_n == 3 ? EVBUFFER_EOL_LF : g_n == 16 ? EVBUFFER_EOL_CRLF_STRICT : EVBUFFER_EOL_CRLF)); if (l) mm_free(l); }
 #elif C08B_OP == B_PEEK
 	{ struct evbuffer_iovec v[3]; CALL(r = evbuffer_peek(A, (ev_ssize_t)g_n - 1, NULL, v, 3)); }
 #elif C08B_OP == B_PTR_SET
@@ -198,7 +201,6 @@ void harness_evbuffer_api(void)
 #if C08B_OP == B_SEARCH || C08B_OP == B_SEARCH_EOL || C08B_OP == B_READLN
 	/* (scanning calls branch on every payload byte: concrete text with CRLF, LF and NUL in it, symbolic needle) */
 	{ size_t i; for (i = 0; i < sizeof data; i++) data[i] = (unsigned char)('a' + i % 5); data[7] = '\r'; data[8] = '\n'; data[18] = '\n'; data[22] = 0; }
-	needle[0] = vp_bool() ? 'c' : 'z'; needle[1] = vp_bool() ? 'd' : 'q';
 #else
 	vp_bytes(data, sizeof data);
 #endif
